@@ -115,8 +115,37 @@ def filter_classes():
     }
 
 
+def _as_callable(fn, kind):
+    if kind == 'bound_temp':
+        class Handler(object):
+            def on_packet(self, packet):
+                return fn(packet)
+        return Handler().on_packet
+    if kind == 'partial':
+        import functools
+        return functools.partial(fn)
+    if kind == 'object':
+        class Callable(object):
+            __slots__ = ()
+
+            def __call__(self, packet):
+                return fn(packet)
+        return Callable()
+    if kind == 'classmethod':
+        class Static(object):
+            @classmethod
+            def on_packet(cls, packet):
+                return fn(packet)
+        return Static.on_packet
+    return fn
+
+
+CALLABLES = ['function', 'bound_temp', 'partial', 'object', 'classmethod']
+
+
 def dispatch_case(ctx, case):
-    """case {version, history [item], listeners [L], decorator: bool}
+    """case {version, history [item], listeners [L], decorator: bool,
+    callables: one of CALLABLES}
     item: ('plugin', mid) | ('compress', t) | ('success',) | ('ka', id) |
           ('pos', tid) | ('chat', text) | ('unknown', payload) | ('death',)
     L: {cls: 'ie'|'io'|'oe'|'oo', types [names], ignore [indices],
@@ -293,10 +322,16 @@ def dispatch_case(ctx, case):
         shared_deco = {}
         fns = {}
         by_gid = {x['id']: x for x in allL}
+        ckind = case.get('callables') or 'function'
+        if ckind != 'function':
+            ctx.label('listener_callable_' + ckind)
         for l in allL:
             types = [F[t] for t in l['types']]
             if l['gid'] not in fns:
-                fns[l['gid']] = make(by_gid[l['gid']])
+                # any callable is a listener: a plain function, a bound
+                # method of an object nobody else holds on to, a partial, an
+                # object with __call__
+                fns[l['gid']] = _as_callable(make(by_gid[l['gid']]), ckind)
             fn_l = fns[l['gid']]
             kw = {}
             if l['cls'][1] == 'e':
@@ -315,6 +350,11 @@ def dispatch_case(ctx, case):
                 conn.listener(*types, **kw)(fn_l)
             else:
                 conn.register_packet_listener(fn_l, *types, **kw)
+        # from here on the connection holds the only reference to the
+        # registered callables (and to the objects whose methods they are)
+        fn_l = None
+        fns.clear()
+        shared_deco.clear()
         try:
             conn.connect()
         except Exception as e:
@@ -763,7 +803,8 @@ def case_strategy():
         return history_strategy(v).flatmap(lambda h: st.fixed_dictionaries({
             'version': st.just(v), 'history': st.just(h),
             'listeners': listeners_strategy(len(h)),
-            'decorator': st.sampled_from([False, True, 'shared'])}))
+            'decorator': st.sampled_from([False, True, 'shared']),
+            'callables': st.sampled_from(CALLABLES)}))
     return st.sampled_from([757, 757, 340, 47]).flatmap(fv).map(sanitize)
 
 
@@ -807,8 +848,10 @@ def t_fixed(ctx):
             {'cls': 'oe', 'types': ['Packet'], 'ignore': [], 'write': None,
              'same_as': 0},
         ]
-        dispatch_case(ctx, {'version': v, 'history': hist,
-                            'listeners': base, 'decorator': False})
+        for ck in CALLABLES:
+            dispatch_case(ctx, {'version': v, 'history': hist,
+                                'listeners': base, 'decorator': False,
+                                'callables': ck})
         dispatch_case(ctx, sanitize({
             'version': v, 'history': hist, 'decorator': 'shared',
             'listeners': [dict(l) for l in base + base]}))
@@ -819,7 +862,8 @@ def t_fixed(ctx):
                 ls = [dict(l) for l in base]
                 ls[li]['ignore'] = [idx]
                 case = sanitize({'version': v, 'history': hist,
-                                 'listeners': ls, 'decorator': idx % 2 == 0})
+                                 'listeners': ls, 'decorator': idx % 2 == 0,
+                                 'callables': CALLABLES[(li + idx) % 5]})
                 dispatch_case(ctx, case)
     ctx.sample({'version': 757, 'history': hist, 'listeners': base[:3]},
                'fixed')
